@@ -124,6 +124,7 @@ func cmdCheck(args []string) int {
 	}
 	sort.Strings(pkgs)
 	var notes []string
+	replayBroken := false
 	for _, pkg := range pkgs {
 		var cases []nativeCase
 		type ref struct {
@@ -167,6 +168,7 @@ func cmdCheck(args []string) int {
 		if err != nil {
 			notes = append(notes, "native replay failed for "+pkg+": "+err.Error())
 			fmt.Printf("  REPLAY-ERROR %s: %v\n", pkg, err)
+			replayBroken = true
 			// candidates that cannot be replayed stay unconfirmed
 			for _, rf := range refs {
 				if rf.viol != nil {
@@ -233,7 +235,9 @@ func cmdCheck(args []string) int {
 					a.valMismatch++
 					msg := fmt.Sprintf("path validation mismatch harness=%s: engine %s %v / native %s %v %s vec=%s", rf.res.Cfg.Func, vc.Outcome, vc.Observed, nr.Outcome, nr.Observed, nr.Msg+nr.Label, fmtVec(vc.Vec))
 					rf.res.Mismatches = append(rf.res.Mismatches, msg)
-					fmt.Println("  ENGINE-MISMATCH " + msg)
+					if a.valMismatch <= 5 {
+						fmt.Println("  ENGINE-MISMATCH " + firstLine(msg))
+					}
 				}
 			}
 		}
@@ -263,7 +267,7 @@ func cmdCheck(args []string) int {
 	}
 	fmt.Printf("property %s tier=%s: harnesses=%d violations=%d known=%d engine-mismatch=%d paths-validated-natively=%d (mismatch %d) inconclusive=%d wall=%.1fs\n",
 		ps.ID, *tierS, len(results), violations, len(knownPrinted), a.mismatched, a.validated, a.valMismatch, inconc, time.Since(start).Seconds())
-	if exit == 0 && vacuous {
+	if exit == 0 && (vacuous || replayBroken) {
 		return 3
 	}
 	return exit
